@@ -156,7 +156,7 @@ def runs(ctx, deep=False):
             fcases.append(dict(c, faults=[k]))
         # real crashes: every call index; in the quick tier every shape for the first templates, one shape (rotating) for the other programs
         pi = [p[0] for p in progs].index(c['name'])
-        if full or pi == 0 or (pi < len(TEMPLATES) and SHAPES[pi % 3] == c['shape']) or (pi == 7 and c['shape'] == 'opt'):
+        if full or pi == 0 or (pi in (1, 3, 6, 7, 9) and SHAPES[pi % 3] == c['shape']) or (pi == 7 and c['shape'] == 'opt'):
             for k in range(n + 1):
                 # quick tier: a crash before a cursor() call leaves the same file as a crash before the statement that follows it
                 if not full and k < n and o['trace'][k][0] == 'cursor': continue
